@@ -336,9 +336,9 @@ fn c14(tier: Tier) -> Vec<SeqCfg> {
         get(K2),
     ];
     let mut v = vec![];
-    let limits: &[u64] = if tier == Tier::Quick { &[10, 60, 100] } else { &[10, 34, 60, 100, 200] };
+    let limits: &[u64] = if tier == Tier::Quick { &[10, 34, 60, 100] } else { &[10, 34, 60, 100, 200] };
     for l in limits {
-        let mut c = base(&format!("C14/L={}", l), "C14", a.clone(), if tier == Tier::Quick { 4 } else { 5 }, tier);
+        let mut c = base(&format!("C14/L={}", l), "C14", a.clone(), if tier == Tier::Quick { 5 } else { 6 }, tier);
         c.sut.policy = Policy::Random(*l);
         c.evict = Evict::Tight;
         v.push(c);
